@@ -231,6 +231,7 @@ func (w *World) loopHead(fr *Frame, st *State, h *ssa.BasicBlock, k int) {
 		// here on (sound: fewer hypotheses); keeps the queries of a long function small
 		w.forgetMark = w.sc.mark()
 		w.quantFacts = nil
+		w.rawFacts = nil
 	}
 	// havoc what the loop may write
 	cells, keys, all := w.loopWrites(fr, fr.loops.body[h])
@@ -864,6 +865,9 @@ func (w *World) resolveLoopCallTargets(fr *Frame, st *State, keys []string, inLo
 					ts = w.modTarget(env, me)
 				}()
 				if failed {
+					if os.Getenv("GOAVC_DEBUG") != "" {
+						fmt.Fprintf(os.Stderr, "loop call target %s of %s: not evaluable at the head\n", exprString(me), cs.ct.Name)
+					}
 					for _, k := range cs.keys {
 						bad[k] = true
 					}
@@ -904,7 +908,7 @@ func (w *World) resolveLoopCallTargets(fr *Frame, st *State, keys []string, inLo
 							if strings.HasPrefix(k, "Glob!") {
 								continue
 							}
-							if !strings.HasPrefix(k, "F!") {
+							if !strings.HasPrefix(k, "F!") && !strings.HasPrefix(k, "Cell!") {
 								valid = tFalse
 								continue
 							}
@@ -928,7 +932,12 @@ func (w *World) resolveLoopCallTargets(fr *Frame, st *State, keys []string, inLo
 							w.loopFreshOnly[t.key] = true
 							continue
 						}
-						if t.whole || t.member != nil || strings.Contains(t.idx.S, "poison!") || t.idx.S == "" {
+						if !t.whole && t.member == nil && strings.Contains(t.idx.S, "poison!") {
+							// designated by a value computed inside the loop: nothing to resolve at the head; the call
+							// proves that it writes an object allocated since the head (or a resolved target)
+							continue
+						}
+						if t.whole || t.member != nil || t.idx.S == "" {
 							bad[t.key] = true
 							continue
 						}
@@ -942,7 +951,10 @@ func (w *World) resolveLoopCallTargets(fr *Frame, st *State, keys []string, inLo
 						w.loopFreshOnly[t.key] = true
 						continue
 					}
-					if t.whole || t.member != nil || strings.Contains(t.idx.S, "poison!") || t.idx.S == "" {
+					if !t.whole && t.member == nil && strings.Contains(t.idx.S, "poison!") {
+						continue
+					}
+					if t.whole || t.member != nil || t.idx.S == "" {
 						bad[t.key] = true
 						continue
 					}
